@@ -280,6 +280,14 @@ func (c *checker) visit(n, parent goast.Node, field string, inSynthetic bool) {
 			c.report(n, vk.Bad("pos:"+kind, "Pos of %s is not the start of a token", c.where(n, s)))
 		}
 	}
+	if ls, ok := n.(*ast.LabeledStmt); ok {
+		// `L:` directly before a closing brace (or the end of the file-level statements) labels an
+		// implicit empty statement, which has no text: the end of the labeled statement is that
+		// synthetic node's position (go/ast convention) and is not a token boundary
+		if es, ok := ls.Stmt.(*ast.EmptyStmt); ok && es.Implicit {
+			c.ts.ends[s.end] = true
+		}
+	}
 	if !c.ts.ends[s.end] {
 		endOK = false
 		c.badEnd[n] = true
